@@ -99,10 +99,11 @@ def configs(quick):
             if nr - (1 if nm1 else 0) > 0:
                 out.append(('to_symmetric_matrix', kw, nr, nr - (1 if nm1 else 0), False))
             out.append(('to_symmetric_matrix', kw, nc, nc - (1 if nm1 else 0), False))
-    for d, r in ((2, 1), (2, 2)) if quick else ((2, 1), (2, 2), (3, 1), (3, 2)):
+    for d, r in ((2, 1), (2, 2)) if quick else ((2, 1), (2, 2), (3, 1), (3, 2), (4, 4)):
         N0 = (r * (2 * d - r + 1)) // 2
         out.append(('to_trace1_psd_cholesky', {'dim': d, 'rank': r}, N0, d * r - r * (r - 1) // 2 - 1, False))
-        out.append(('to_trace1_psd_cholesky', {'dim': d, 'rank': r}, 2 * N0 - r, 2 * d * r - r * r - 1, False))
+        if (d, r) != (4, 4):      # rank 4 (real only): the diagonal slots of the packed lower trapezoid stop being the leading parameters
+            out.append(('to_trace1_psd_cholesky', {'dim': d, 'rank': r}, 2 * N0 - r, 2 * d * r - r * r - 1, False))
     for d, r in ((2, 1), (3, 1), (3, 2), (2, 2)) if quick else ((2, 1), (3, 1), (3, 2), (2, 2), (4, 2), (3, 3)):
         N0 = d * r - r * (r + 1) // 2
         out.append(('to_stiefel_euler', {'dim': d, 'rank': r, 'with_phase': False}, N0, N0, True))
